@@ -28,6 +28,16 @@ using namespace sx;
 #else
 #define VX_SER 0
 #endif
+#ifdef FFSM2_ENABLE_PLANS
+#define VX_PLANS 1
+#else
+#define VX_PLANS 0
+#endif
+#ifdef FFSM2_ENABLE_TRANSITION_HISTORY
+#define VX_HIST 1
+#else
+#define VX_HIST 0
+#endif
 static constexpr int N = VX_NSTATES;
 
 enum Meth : uint8_t { M_EG = 1, M_ENTER, M_REENTER, M_PRE_UPDATE, M_UPDATE, M_POST_UPDATE, M_PRE_REACT, M_REACT, M_QUERY, M_POST_REACT, M_XG, M_EXIT };
@@ -65,9 +75,34 @@ using FSM = Mk<std::make_index_sequence<N>>::FSM;
 	void query(QA&, ConstControl& c) const { rec(SID, M_QUERY, c.stateId(), this); } \
 	void exitGuard(GuardControl& c) { rec(SID, M_XG, c.stateId(), this); } \
 	void exit(PlanControl& c) { rec(SID, M_EXIT, c.stateId(), this); }
-template <int I> struct St : FSM::State { CBS(I) };
+static bool g_succeed_in_update = false; static int g_plan_ok = 0, g_plan_fail = 0;
+// every state object carries a few bytes of user data: the library never touches them
+template <int I> struct St : FSM::State {
+	uint8_t mark[3] = {static_cast<uint8_t>(0xC0 ^ I), 0x5A, static_cast<uint8_t>(0xA5 + I)};
+	void entryGuard(GuardControl& c) { rec(I, M_EG, c.stateId(), this); }
+	void enter(PlanControl& c) { rec(I, M_ENTER, c.stateId(), this); }
+	void reenter(PlanControl& c) { rec(I, M_REENTER, c.stateId(), this); }
+	void preUpdate(FullControl& c) { rec(I, M_PRE_UPDATE, c.stateId(), this); }
+	void update(FullControl& c) { rec(I, M_UPDATE, c.stateId(), this);
+#if VX_PLANS
+		if (g_succeed_in_update) c.succeed();
+#endif
+	}
+	void postUpdate(FullControl& c) { rec(I, M_POST_UPDATE, c.stateId(), this); }
+	void preReact(const EvA&, FullControl& c) { rec(I, M_PRE_REACT, c.stateId(), this); }
+	void react(const EvA&, FullControl& c) { rec(I, M_REACT, c.stateId(), this); }
+	void postReact(const EvA&, FullControl& c) { rec(I, M_POST_REACT, c.stateId(), this); }
+	void query(QA&, ConstControl& c) const { rec(I, M_QUERY, c.stateId(), this); }
+	void exitGuard(GuardControl& c) { rec(I, M_XG, c.stateId(), this); }
+	void exit(PlanControl& c) { rec(I, M_EXIT, c.stateId(), this); }
+};
 #if VX_HEAD
-struct Rt : FSM::State { CBS(-1) };
+struct Rt : FSM::State { CBS(-1)
+#if VX_PLANS
+	void planSucceeded(FullControl&) { ++g_plan_ok; }
+	void planFailed(FullControl&) { ++g_plan_fail; }
+#endif
+};
 #endif
 using Inst = FSM::Instance;
 
@@ -86,6 +121,9 @@ static_assert(Inst::SerialBuffer::BIT_CAPACITY == 1 + ffsm2::bitWidth(N), "SERIA
 static const void* g_obj[N + 1];
 template <int I> struct FillObj { static void run(Inst& m) { g_obj[I] = &m.access<St<I>>(); FillObj<I - 1>::run(m); } };
 template <> struct FillObj<-1> { static void run(Inst&) {} };
+template <int I> struct Marks { static int bad(const Inst& m) { const St<I>& r = m.access<St<I>>(); if (r.mark[0] != static_cast<uint8_t>(0xC0 ^ I) || r.mark[1] != 0x5A || r.mark[2] != static_cast<uint8_t>(0xA5 + I)) return I; return Marks<I - 1>::bad(m); } };
+template <> struct Marks<-1> { static int bad(const Inst&) { return -1; } };
+static void check_marks(const Inst& m, const char* rp, const char* when) { const int b = Marks<N - 1>::bad(m); ++me().cases; if (b >= 0) violation("state-data-damaged", rp, "N=%d: the user data kept in state %d was modified by the library (%s)", N, b, when); }
 // the const overload of access<T>() names the same objects
 template <int I> struct ConstObj { static int run(const Inst& m) { const St<I>& r = m.access<St<I>>(); if (static_cast<const void*>(&r) != g_obj[I]) return I; return ConstObj<I - 1>::run(m); } };
 template <> struct ConstObj<-1> { static int run(const Inst&) { return -1; } };
@@ -173,6 +211,7 @@ static void dispatch_sweep() {
 			if (m.activeStateId() != k) violation("dispatch-activity", rp, "N=%d: update/react/query moved the machine from %d to %d", N, k, m.activeStateId());
 		}
 	}
+	check_marks(m, rp, "after the dispatch sweep");
 	me().states += N;
 #if !VX_MANUAL
 	g_n = 0; m.~Inst();
@@ -252,10 +291,75 @@ static void serial_sweep() {
 }
 #endif
 
+#if VX_PLANS && !VX_MANUAL
+// plans on a machine of this size: a chain 0>1>...>last walked by success reports, then planSucceeded once; a failure from outside
+static void plan_sweep() {
+	char rp[64]; snprintf(rp, sizeof rp, "plans:N=%d,head=%d", N, VX_HEAD);
+	activate(0); Inst& m = *inst(0); g_plan_ok = g_plan_fail = 0;
+	// reports on a machine without a plan are not an outcome
+	m.succeed(static_cast<ffsm2::StateID>(N - 1)); m.fail(static_cast<ffsm2::StateID>(N > 1 ? N - 2 : 0)); m.update(); ++me().cases;
+	if (g_plan_ok || g_plan_fail) violation("outcome-without-any-task", rp, "N=%d: planSucceeded x%d / planFailed x%d on a machine to which no task was added", N, g_plan_ok, g_plan_fail);
+	check_marks(m, rp, "after succeed/fail without a plan");
+	// fresh machine: chain of N-1 tasks (capacity defaults to the state count)
+	m.~Inst(); activate(0); Inst& q = *inst(0); g_plan_ok = g_plan_fail = 0;
+	{ auto p = q.plan(); for (int i = 0; i + 1 < N; ++i) if (!p.change(static_cast<ffsm2::StateID>(i), static_cast<ffsm2::StateID>(i + 1))) { violation("plan-append", rp, "N=%d: task %d of %d refused", N, i, N - 1); return; } }
+	g_succeed_in_update = true;
+	for (int i = 0; i + 1 < N; ++i) { q.update(); ++me().cases;
+		if (q.activeStateId() != i + 1) { violation("plan-walk", rp, "N=%d: after %d successful cycles state %d is active, the plan leads to %d", N, i + 1, q.activeStateId(), i + 1); g_succeed_in_update = false; return; }
+		if (g_plan_ok || g_plan_fail) { violation("plan-outcome-early", rp, "N=%d: outcome callback after %d of %d tasks", N, i + 1, N - 1); g_succeed_in_update = false; return; } }
+	if (N > 1) { q.update(); ++me().cases; if (VX_HEAD && (g_plan_ok != 1 || g_plan_fail)) violation("plan-outcome", rp, "N=%d: planSucceeded x%d planFailed x%d after the last task, expected exactly one planSucceeded", N, g_plan_ok, g_plan_fail); }
+	g_succeed_in_update = false;
+	check_marks(q, rp, "after walking a plan through every state");
+	// failure from outside with a plan present: planFailed once, plan cleared, nobody moves
+	if (N > 1) { g_plan_ok = g_plan_fail = 0; const int a = q.activeStateId(); { auto p = q.plan(); p.change(static_cast<ffsm2::StateID>(a), 0); } q.fail(static_cast<ffsm2::StateID>(a)); q.update(); ++me().cases;
+		if (VX_HEAD && (g_plan_fail != 1 || g_plan_ok)) violation("plan-outcome", rp, "N=%d: planFailed x%d planSucceeded x%d after fail(%d) with a plan", N, g_plan_fail, g_plan_ok, a);
+		if (q.activeStateId() != a) violation("plan-walk", rp, "N=%d: a failed plan moved the machine", N);
+		{ auto p = q.plan(); if (p) violation("plan-outcome", rp, "N=%d: plan not empty after planFailed", N); } }
+	check_marks(q, rp, "after a failed plan");
+	q.~Inst();
+}
+#endif
+#if VX_HIST && !VX_MANUAL
+// replayTransition(k) from every j reaches k with exit(j) enter(k) and no guards; replaying k again re-enters k
+static void replay_sweep() {
+	char rp[64]; snprintf(rp, sizeof rp, "replay:N=%d,head=%d", N, VX_HEAD);
+	activate(0); Inst& m = *inst(0); FillObj<N - 1>::run(m);
+#if VX_HEAD
+	g_obj[N] = &m.access<Rt>();
+#endif
+	const int step = N > 40 ? 7 : 1;
+	for (int j = 0; j < N; j += step) for (int k = 0; k < N; k += (N > 40 ? 5 : 1)) {
+		if (m.activeStateId() != j) { m.immediateChangeTo(static_cast<ffsm2::StateID>(j)); }
+		g_n = 0; g_over = false; const bool ok = m.replayTransition(static_cast<ffsm2::StateID>(k)); ++me().cases;
+		Rec want[2]; int n = 0; if (j == k) want[n++] = Rec{static_cast<int16_t>(k), M_REENTER, 0, nullptr}; else { want[n++] = Rec{static_cast<int16_t>(j), M_EXIT, 0, nullptr}; want[n++] = Rec{static_cast<int16_t>(k), M_ENTER, 0, nullptr}; }
+		if (!ok) violation("dispatch", rp, "N=%d: replayTransition(%d) from %d refused", N, k, j);
+		if (!expect_trace("replayTransition", j, k, want, n, rp)) continue;
+		if (m.activeStateId() != k) { violation("dispatch-activity", rp, "N=%d: replayTransition(%d) from %d leaves %d active", N, k, j, m.activeStateId()); continue; }
+		// the same destination once more: a re-entry of k, nothing else
+		g_n = 0; m.replayTransition(static_cast<ffsm2::StateID>(k)); ++me().cases;
+		Rec again[1] = {Rec{static_cast<int16_t>(k), M_REENTER, 0, nullptr}};
+		expect_trace("replayTransition (same destination again)", k, k, again, 1, rp);
+		if (m.activeStateId() != k) violation("dispatch-activity", rp, "N=%d: replaying %d twice leaves %d active", N, k, m.activeStateId());
+		g_n = 0; m.update(); ++me().cases;
+		{ Rec wu[6]; int u = 0; if (VX_HEAD) wu[u++] = Rec{-1, M_PRE_UPDATE, 0, nullptr}; wu[u++] = Rec{static_cast<int16_t>(k), M_PRE_UPDATE, 0, nullptr}; if (VX_HEAD) wu[u++] = Rec{-1, M_UPDATE, 0, nullptr}; wu[u++] = Rec{static_cast<int16_t>(k), M_UPDATE, 0, nullptr}; wu[u++] = Rec{static_cast<int16_t>(k), M_POST_UPDATE, 0, nullptr}; if (VX_HEAD) wu[u++] = Rec{-1, M_POST_UPDATE, 0, nullptr};
+			if (m.activeStateId() == k) expect_trace("update after replay", k, k, wu, u, rp); }
+	}
+	check_marks(m, rp, "after the replay sweep");
+	m.~Inst();
+}
+#endif
+
 int main(int argc, char** argv) {
 	Args a = parse_args(argc, argv);
 	init(1);
 	dispatch_sweep();
+#if VX_PLANS && !VX_MANUAL
+	plan_sweep();
+	sample("N=%d: plan 0>1>...>%d walked by success reports, exactly one planSucceeded at the end; fail() with a plan: exactly one planFailed; user data in all %d state objects intact", N, N - 1, N);
+#endif
+#if VX_HIST && !VX_MANUAL
+	replay_sweep();
+#endif
 	sample("N=%d %s: every ordered pair (j,k): immediateChangeTo(k) from j => exitGuard(j) entryGuard(k) exit(j) enter(k) on access<St<j>>()/access<St<k>>(); update/react/query reach k only", N, VX_HEAD ? "Root" : "PeerRoot");
 #if VX_SER
 	serial_sweep();
